@@ -461,27 +461,35 @@ package protocol
 //@ func RequestHeader.SetMethodBytes(h, method)
 //@   modifies h._all, membut(parseArr)
 //@   allocates
+//@   ensures h.disableNormalizing == old(h.disableNormalizing)
 //@ func RequestHeader.SetRequestURIBytes(h, requestURI)
 //@   modifies h._all, membut(parseArr)
 //@   allocates
+//@   ensures h.disableNormalizing == old(h.disableNormalizing)
 //@ func RequestHeader.SetHostBytes(h, host)
 //@   modifies h._all, membut(parseArr)
 //@   allocates
+//@   ensures h.disableNormalizing == old(h.disableNormalizing)
 //@ func RequestHeader.SetUserAgentBytes(h, userAgent)
 //@   modifies h._all, membut(parseArr)
 //@   allocates
+//@   ensures h.disableNormalizing == old(h.disableNormalizing)
 //@ func RequestHeader.SetContentTypeBytes(h, contentType)
 //@   modifies h._all, membut(parseArr)
 //@   allocates
+//@   ensures h.disableNormalizing == old(h.disableNormalizing)
 //@ func RequestHeader.SetContentLengthBytes(h, contentLength)
 //@   modifies h._all, membut(parseArr)
 //@   allocates
+//@   ensures h.disableNormalizing == old(h.disableNormalizing)
 //@ func RequestHeader.AddArgBytes(h, key, value, noValue)
 //@   modifies h._all, alltype(protocol.argsKV), membut(parseArr)
 //@   allocates
+//@   ensures h.disableNormalizing == old(h.disableNormalizing)
 //@ func RequestHeader.SetArgBytes(h, key, value, noValue)
 //@   modifies h._all, alltype(protocol.argsKV), membut(parseArr)
 //@   allocates
+//@   ensures h.disableNormalizing == old(h.disableNormalizing)
 //@ func RequestHeader.PeekArgBytes(h, key) r
 //@ func Trailer.SetTrailers(t, trailers) err
 //@   modifies t._all, alltype(protocol.argsKV), membut(parseArr)
